@@ -286,6 +286,46 @@ def run(check, an: Analysis):
                            where_fn(borrow.fn),
                            'usage assertion `%s` present (assert-only)' % need,
                            assert_only=True, nontrivial=False)
+    # claim(): the amounts pass the very checks of borrow() (non-negative, within the share)
+    for cls_qn in [BASE] + [q for q in an.p.subclasses(BASE)
+                            if an.p.find_method(q, 'claim') is not an.p.find_method(
+                                BASE, 'claim')]:
+        claim = an.callee(cls_qn, 'claim')
+        kw = claim.fn.node.args.kwarg.arg if claim.fn.node.args.kwarg else 'amounts'
+        forms = set()
+        for path in an.paths(claim):
+            if path.kind == 'return' and path.outcome[1] is not None:
+                forms.add(rules.value_text(path, len(path.events), path.outcome[1]))
+        check.instance('D', '%s:validated-like-borrow' % short(claim.fn.qn),
+                       forms == {'ClaimedResources(self, self.borrow(**%s).limits)' % kw},
+                       where_fn(claim.fn), 'a claim is made of the limits of the borrow of '
+                       'the same amounts, so it passes the same usage checks: %s'
+                       % sorted(forms))
+    # the share of a borrow block holds the amount from the first statement of the block:
+    # it is filled -- awaited, not merely dispatched -- before __aenter__ returns
+    for recv in (BORROWED, CLAIMED):
+        enter = an.callee(recv, '__aenter__')
+        n_enter, unfilled = 0, None
+        for path in an.paths(enter):
+            if not path.normal:
+                continue
+            n_enter += 1
+            filled = any(e.kind == 'susp' and e.data.get('exit') == 'normal' and (
+                (is_call_to(e, '__insert_resources__') and e.data.get('expr') is not None
+                 and rules.value_text(path, i, e['expr']).startswith(
+                     'self.__insert_resources__('))
+                # ... or the entry is the one of the base class, awaited as a whole
+                or (enter.fn.cls is not None and enter.fn.cls.qn != BORROWED
+                    and is_call_to(e, '__aenter__', BORROWED)))
+                for i, e in enumerate(path.events))
+            if not filled:
+                unfilled = unfilled or path
+        check.instance('W', '%s.__aenter__:share-filled-on-entry' % recv.rsplit('.', 1)[-1],
+                       unfilled is None and n_enter > 0, where_fn(enter.fn),
+                       'every successful entry awaited the insertion of the amount into its '
+                       'own share (%d normal paths)' % n_enter,
+                       path=rules.path_lines(unfilled) if unfilled else None,
+                       analysed=n_enter)
     # ---- S ------------------------------------------------------------------
     b_enter = an.callee(BORROWED, '__aenter__').fn
     c_enter = an.callee(CLAIMED, '__aenter__').fn
